@@ -309,6 +309,9 @@ func (w *World) prelude() string {
 	for _, n := range w.uforder {
 		f := w.ufuncs[n]
 		fmt.Fprintf(&sb, "(declare-fun %s (%s) %s)\n", f.Name, strings.Join(f.Args, " "), f.Res)
+		if strings.HasPrefix(f.Name, "fnid_") {
+			fmt.Fprintf(&sb, "(assert (< 0 %s))\n", f.Name)
+		}
 	}
 	return sb.String()
 }
